@@ -33,7 +33,8 @@ class Abort(BaseException):
 
 
 LINE_EXC = {
-    "RuntimeError": lambda: RuntimeError("[sim] CPU out of memory (injected)"),
+    "RuntimeError": lambda: RuntimeError("[sim] DefaultCPUAllocator: not enough memory: you tried to "
+                                         "allocate 1073741824 bytes (out of memory, injected)"),
     "MemoryError": lambda: MemoryError("[sim] injected"),
     "KeyboardInterrupt": lambda: KeyboardInterrupt("[sim] injected"),
     "SimCancel": lambda: SimCancel("[sim] injected"),
@@ -238,6 +239,26 @@ def module_state_snap(mod):
     return ("U", [("U", [("S", k), s]) for k, s in items] + [("S", repr(sorted(attrs.items())))])
 
 
+_TRIVIAL_C = frozenset(["get_default_dtype", "is_grad_enabled", "size", "dim", "stride", "numel",
+                        "is_contiguous", "is_floating_point", "is_complex", "type", "data_ptr",
+                        "storage_offset", "_is_view", "is_inference", "requires_grad_"])
+
+
+def alloc_capable(fn):
+    """A C function of torch / numpy that can fail for lack of memory."""
+    if getattr(fn, "__name__", "") in _TRIVIAL_C:
+        return False
+    mod = getattr(fn, "__module__", None) or ""
+    if mod.startswith(("torch", "numpy")):
+        return True
+    slf = getattr(fn, "__self__", None)
+    if slf is not None:
+        import torch
+        if isinstance(slf, (torch.Tensor, np.ndarray)):
+            return True
+    return False
+
+
 class Client:
     def __init__(self, world, idx, program):
         self.world = world
@@ -251,6 +272,7 @@ class Client:
         self.opens = 0
         self.pending = []      # faults armed for the current attempt
         self.burst = [0, "EIO"]
+        self.reinstall_profile = False
         self.fired = []
         self.io_enabled = True
         self.waiting_lock = False
@@ -269,18 +291,34 @@ class Client:
             return None
         self.tracer = global_trace
 
+        fine = bool(world_.plan.get("knobs", {}).get("fine"))
+
         def profiler(frame, event, arg):
             # finer pre-emption (a quarter of the runs): the return of every C
             # function called directly from a library frame is a decision
             # point too, which splits source lines such as
             # `table[k] = table.get(k, 0) + 1` or `if k not in cache: cache.clear()`
-            if event == "c_return" and frame.f_code.co_filename.startswith(prefix):
-                self.on_creturn()
-        self.profiler = profiler if world_.plan.get("knobs", {}).get("fine") else None
+            if event == "c_return":
+                if fine and frame.f_code.co_filename.startswith(prefix):
+                    self.on_creturn()
+            elif event == "c_call" and self.c_faults and frame.f_code.co_filename.startswith(prefix):
+                # a failure INSIDE a torch / numpy call made by the library: the
+                # call raises instead of running (unlike a line-level fault this
+                # one lands inside any `try:` that encloses the call)
+                self.on_ccall(frame, arg)
+        self._profiler = profiler
+        self.fine = fine
+        self.profiler = profiler if fine else None
+        self.c_faults = False
+        self.ccalls = 0
 
     # ---- decision / fault points ------------------------------------------
     def on_line(self, frame):
         w = self.world
+        if self.reinstall_profile:
+            self.reinstall_profile = False
+            if self.profiler is not None and sys.getprofile() is None:
+                sys.setprofile(self.profiler)
         self.lines += 1
         self.k += 1
         w.stats["lines"] += 1
@@ -298,6 +336,21 @@ class Client:
                 w.fault_fired(self, f, site)
                 raise LINE_EXC[f["exc"]]()
         w.sched.decide(self.idx, [self.idx, self.op["id"], self.k], in_lib=True)
+
+    def on_ccall(self, frame, fn):
+        if not alloc_capable(fn):
+            return
+        self.ccalls += 1
+        for f in self.pending:
+            if f["kind"] == "c_error" and f["at"] == self.ccalls:
+                w = self.world
+                self.pending.remove(f)
+                self.fired.append(f)
+                self.c_faults = any(g["kind"] == "c_error" for g in self.pending)
+                self.reinstall_profile = True      # raising switches the profiler off
+                w.fault_fired(self, f, (frame.f_code.co_filename[len(env.LIB_PREFIX):],
+                                        "%d@%s" % (frame.f_lineno, getattr(fn, "__name__", "?"))))
+                raise LINE_EXC[f["exc"]]()
 
     def on_creturn(self):
         w = self.world
@@ -451,6 +504,9 @@ class Client:
         self.pending = [dict(f) for f in faults]
         self.fired = []
         self.burst = [0, "EIO"]
+        self.ccalls = 0
+        self.c_faults = any(f["kind"] == "c_error" for f in self.pending)
+        self.profiler = self._profiler if (self.fine or self.c_faults) else None
         rec = {"client": self.idx, "op_id": op["id"], "op": op, "kind": op["op"],
                "seq0": w.next_seq(), "retry": retry_of is not None,
                "armed": len(faults)}
